@@ -286,6 +286,8 @@ def run_scenario(scen, chooser_factory, max_steps=4000, observe=True):
     H.futs = {}
     H.by_wid = []
     H.reuse_calls = []
+    H.cb_submitted = []
+    simtasks.HOLDER = H
     H.pickler_at_submit = {}
     H.api = []              # (user, op index, op, outcome)
     H.cancel_ok = {}
@@ -350,7 +352,9 @@ def run_scenario(scen, chooser_factory, max_steps=4000, observe=True):
                     spec = tasks[k]
                     f = ex.submit(simtasks.task, k, spec, simtasks.make_arg(spec.get("args", "ok")))
                     cb = spec.get("cb")
-                    if cb:
+                    if cb == "submit":
+                        f.add_done_callback(simtasks.CbSubmit(spec["cb_task"], tasks))
+                    elif cb:
                         f.add_done_callback(simtasks.cb_raise if cb == "raise" else simtasks.cb_ok)
                     H.futs[k] = f
                     H.by_wid.append((k, f))
